@@ -15,6 +15,10 @@ Keys1 == {<<"a">>}
 \* gobwas-only syntax (in-memory backend): alternatives alone, next to literals and wildcards, character classes
 PatsG == {<<"{a,ab}">>, <<"{a,d/b}">>, <<"d", "/", "{b,c}">>, <<"{a,x}", "*">>, <<"a", "{b,c}">>, <<"{ab,d/b}">>,
           <<"[!d]", "*">>, <<"[!a-c]", "*">>, <<"[ab]">>, <<"a", "[a-c]">>}
+\* a key that contains a metacharacter, and the patterns that mean it literally (escape) or as a wildcard;
+\* the EMPTY key next to an ordinary one
+KeysS == {<<"a", "*", "b">>, <<"a", "x", "b">>, <<>>}
+PatsS == {<<"a", "\\*", "b">>, <<"a", "*", "b">>, <<"a", "\\*", "*">>, <<"*">>, <<"a", "\\?", "b">>, <<"?", "*">>}
 \* classes both matchers spell the same way
 PatsC == {<<"[ab]">>, <<"a", "[a-c]">>, <<"[a-c]", "*">>, <<"*", "[ab]">>}
 Bound == DepthBound(Depth)
